@@ -104,12 +104,14 @@ def guard(ctx):
     for i in ctx.instances:
         if i.ok or not i.function or not str(i.file).endswith('.py'):
             continue
-        d = raw_difference(ctx.model, i.file, i.function)
-        if d is not None and d > LIMIT:
-            i.unrecognised = d
+        # the function the instance is reported in, and every other function its verdict was read from
+        ds = [(raw_difference(ctx.model, p_, q_), q_) for p_, q_ in [(i.file, i.function)] + list(getattr(i, 'reads', ()) or ())]
+        ds = [(d, q_) for d, q_ in ds if d is not None and d > LIMIT]
+        if ds:
+            i.unrecognised = max(ds)
             dropped.append(i)
     if dropped:
-        fns = sorted({'%s (%d statements differ)' % (i.function, i.unrecognised) for i in dropped})
+        fns = sorted({'%s (%d statements differ)' % (i.unrecognised[1], i.unrecognised[0]) for i in dropped})
         msg = 'rewritten beyond recognition, %d failing rule instance(s) not believed: %s' % (len(dropped), '; '.join(fns)[:300])
         ctx.anchor_error = (ctx.anchor_error + ' | ' if getattr(ctx, 'anchor_error', None) else '') + msg
     return dropped
